@@ -83,6 +83,32 @@ public:
         return vector_low[irq] | ((u32)vector_high[irq] << 16);
     }
 
+    // The vector registers are written by the DSP (MMIO) while Trigger may read them on another thread
+    void SetVectorLow(u32 irq, u16 value) {
+        std::lock_guard lock(mutex);
+        vector_low[irq] = value;
+    }
+    u16 GetVectorLow(u32 irq) const {
+        std::lock_guard lock(mutex);
+        return vector_low[irq];
+    }
+    void SetVectorHigh(u32 irq, u16 value) {
+        std::lock_guard lock(mutex);
+        vector_high[irq] = value;
+    }
+    u16 GetVectorHigh(u32 irq) const {
+        std::lock_guard lock(mutex);
+        return vector_high[irq];
+    }
+    void SetVectorContextSwitch(u32 irq, u16 value) {
+        std::lock_guard lock(mutex);
+        vector_context_switch[irq] = value;
+    }
+    u16 GetVectorContextSwitch(u32 irq) const {
+        std::lock_guard lock(mutex);
+        return vector_context_switch[irq];
+    }
+
     void SetInterruptHandler(std::function<void(u32)> interrupt,
                              std::function<void(u32, bool)> vectored_interrupt) {
         on_interrupt = std::move(interrupt);
